@@ -58,6 +58,34 @@ def scan_forbidden() -> list[str]:
     return hits
 
 
+def scan_ghosts() -> list[str]:
+    """Ghost discipline of the model: a field declared with a `-- ghost` comment in Model/*.lean may occur elsewhere in the
+    model only as the target of an update whose right-hand side reads the field, if at all, as `<x>.G ++ ...` / `<x>.G || ...`
+    (append-only logs, sticky flags).  So no ghost is ever read by a condition or flows into a non-ghost field: erasing the
+    ghosts changes no output of the model, and what the theorems say about them is about what the model did."""
+    hits = []
+    mdir = os.path.join(LEAN, "SomeipModel", "Model")
+    for f in sorted(os.listdir(mdir)):
+        if not f.endswith(".lean"):
+            continue
+        raw = open(os.path.join(mdir, f)).read().split("\n")
+        ghosts = [m.group(1) for l in raw for m in [re.match(r"\s+(\w+)\s*:[^=]*:=.*--\s*ghost", l)] if m]
+        code = _strip_comments("\n".join(raw)).split("\n")
+        for g in ghosts:
+            for n, line in enumerate(code, 1):
+                if not re.search(r"\b%s\b" % g, line) or re.match(r"\s+%s\s*:" % g, line):
+                    continue
+                ok = re.search(r"\b%s := " % g, line) is not None
+                for m in re.finditer(r"\.%s\b" % g, line):
+                    if not re.match(r"\.%s (\+\+|\|\|) " % g, line[m.start():]):
+                        ok = False
+                if len(re.findall(r"\b%s\b" % g, line)) != len(re.findall(r"\b%s := " % g, line)) + len(re.findall(r"\.%s\b" % g, line)):
+                    ok = False
+                if not ok:
+                    hits.append(f"Model/{f}:{n}: ghost `{g}` used outside an append-only update: {line.strip()[:120]}")
+    return hits
+
+
 # properties whose theorems rest on the wire constants / formats extracted into ConstTie.lean
 LAST_TIE: dict[str, str] = {}   # translator status of the last build: function -> 'translated' | 'UNTRANSLATED: reason'
 CONST_TIE = {"SomeipModel.ConstTie": {"C01", "C02", "C03", "C09", "C16", "C18", "C20"}}
@@ -340,7 +368,7 @@ def check(pid: str, tier: str, seed: int, module, level_text: str) -> int:
     ev_path = os.path.join(EVIDENCE, f"{pid}.json")
     # --- 1. proof side
     built, built_mods = lean_build(log, pid)
-    forbidden = scan_forbidden()
+    forbidden = scan_forbidden() + scan_ghosts()
     thms = theorems_for(pid)
     axioms = audit(thms, log, built_mods)
     bad_thms = [t for t, a in axioms.items() if a is None or not set(a) <= ALLOWED_AXIOMS]
@@ -436,6 +464,7 @@ def check(pid: str, tier: str, seed: int, module, level_text: str) -> int:
                 "hand-written model tied to /repo/src by this run's correspondence cases (differential test) and the constant tie",
                 "translator harness/pytolean.py (decision functions regenerated from /repo/src this run: %s)" % (
                     ", ".join(f"{k}: {v}" for k, v in sorted(LAST_TIE.items())) or "not run"),
+                "ghost fields of the model (logs and sticky flags the theorems speak about) are append-only and never read: syntactic audit scan_ghosts, run with the forbidden-construct scan",
                 "harness/driver glue (unverified parsing/printing)",
                 "CPython struct/int/slicing semantics as modelled",
             ],
